@@ -88,6 +88,10 @@ class Bench:
         any_ = False
         for ags in self.agents.values():
             for a in ags:
+                if getattr(a, "force", False):      # stall / runaway detected: end the run now
+                    return True
+        for ags in self.agents.values():
+            for a in ags:
                 d = getattr(a, "done", None)
                 if d is not None:
                     any_ = True
